@@ -346,6 +346,16 @@ def shrink_spec(ctx, sp, impl, exp):
                         return cand
                 except Exception:
                     pass
+        for t in (d['spurious'] + d['repeated'])[:2]:
+            i = max(t[0], t[1])
+            if 0 <= i < len(seqs) - 1:           # a triplet that names positions up to i only: the prefix of length i + 1 may do
+                cand = dict(sp, seqs=list(seqs[:i + 1]))
+                try:
+                    if spec_fails(ctx, cand):
+                        sp, seqs = cand, cand['seqs']
+                        break
+                except Exception:
+                    pass
     n = len(seqs)
     steps = 300 if n <= 400 else (60 if n <= 5000 else 24)
     try:
